@@ -28,4 +28,38 @@ func TestVerifC19(t *testing.T) {
 		}
 		tw.emit(map[string]interface{}{"k": "R", "base": base, "mc": mc})
 	}
+	// beyond the property: comprehension ranges over the whole attribute-type domain, the panic domain of
+	// MessageClass.String and totality of the other String methods
+	for base := 0; base < 65536; base += 16 {
+		req, opt := make([]bool, 16), make([]bool, 16)
+		for i := 0; i < 16; i++ {
+			req[i] = stun.AttrType(base + i).Required()
+			opt[i] = stun.AttrType(base + i).Optional()
+		}
+		tw.emit(map[string]interface{}{"k": "Q", "base": base, "req": req, "opt": opt})
+	}
+	str := func(f func() string) (s string, panicked bool) {
+		defer func() {
+			if r := recover(); r != nil {
+				panicked = true
+			}
+		}()
+		return f(), false
+	}
+	for c := 0; c < 256; c++ {
+		name, p := str(func() string { return stun.MessageClass(c).String() })
+		tw.emit(map[string]interface{}{"k": "C", "class": c, "panics": p, "name": name})
+	}
+	for base := 0; base < 65536; base += 256 {
+		ok := make([]bool, 256)
+		for i := range ok {
+			s1, p1 := str(func() string { return stun.AttrType(base + i).String() })
+			s2, p2 := str(func() string { return stun.Method((base + i) % 4096).String() })
+			s3, p3 := str(func() string {
+				return stun.MessageType{Method: stun.Method((base + i) % 4096), Class: stun.MessageClass(i % 4)}.String()
+			})
+			ok[i] = !p1 && !p2 && !p3 && s1 != "" && s2 != "" && s3 != ""
+		}
+		tw.emit(map[string]interface{}{"k": "N", "base": base, "ok": ok})
+	}
 }
